@@ -180,6 +180,24 @@ def h_arg_kinds(ctx, fname, nmax, params=None):
             ctx.eq(np.asarray(got, dtype=float), np.asarray(ref, dtype=float), '%s(%s, n=%d) == value on the float array' % (fname, label, n))
 
 
+def h_far_points(ctx, fname):
+    """closed-form references at points far from the origin, compared RELATIVELY (orders n >= 1 of
+    expm1 are exp(x): a formula that goes through expm1(x) + 1 loses all digits for x << 0; orders of
+    exp2 are ln2^n 2^x).  Concrete points: decided on the float build."""
+    import math
+    algopy = symx.load_algopy()
+    if ctx.mode == 'sym':
+        ctx.fact(True, 'concrete far points: decided on the float build')
+        ctx.eq(S.const(0), S.const(0), '%s at far points' % fname)
+        return
+    pts = np.array([-45.0, -38.5, -30.0, -20.0, -3.0, 20.0])
+    for n in (1, 2, 3):
+        got = np.asarray(call(algopy, fname, pts.copy(), n, {}), dtype=float)
+        ref = {'expm1': np.exp(pts), 'exp': np.exp(pts), 'exp2': math.log(2.0) ** n * np.exp2(pts)}[fname]
+        for i in range(len(pts)):
+            ctx.fact(abs(got[i] - ref[i]) <= 1e-12 * abs(ref[i]), '%s(x=%g, n=%d) == closed form to 1e-12 relative (got %r, expected %r)' % (fname, pts[i], n, got[i], ref[i]))
+
+
 def h_piecewise(ctx, fname, nmax):
     """piecewise constant / linear functions: derivative orders >= 1 on each path"""
     algopy = symx.load_algopy()
@@ -252,6 +270,8 @@ def units(tier, seed):
             continue
         out.append(Unit('C16/%s/argument kinds (integer-typed arrays, python int, list, tuple)/n<=2' % fname, 'symx.props.c16', 'h_arg_kinds',
                         {'fname': fname, 'nmax': 2}, dict(opts, float_rel=1e-9)))
+    for fname in ('expm1', 'exp', 'exp2'):
+        out.append(Unit('C16/%s/orders 1..3 at points far from the origin, relative comparison' % fname, 'symx.props.c16', 'h_far_points', {'fname': fname}, dict(opts)))
     add('hyperu(3/2,1/2)/order given as a NumPy integer/n<=2', 'h_order_types', fname='hyperu', nmax=2, params={'a': '3/2', 'b': '1/2'})
     for m in ((0, 1, 2) if tier == 'quick' else (0, 1, 2, 3, 5)):
         add('polygamma(m=%d)/n<=%d' % (m, nmax), 'h_chain', fname='polygamma', nmax=nmax, params={'m': m})
